@@ -30,7 +30,7 @@ ASSUMPTIONS = [
     'the leak clause recognises owner-bound watchers structurally (functools.partial with a function= keyword bound to the '
     'owner); unrecognisable callbacks are counted, not judged',
 ]
-REQUIRED = {'ops_judged': 3000, 'replacements': 1000, 'leaf_sets': 1000, 'detached_leaf_sets': 200, 'leak_checks': 2000, 'slot_sets': 300, 'falsy_object_cases': 100, 'on_init_builders': 60,
+REQUIRED = {'branch_case_ops': 200, 'ops_judged': 3000, 'replacements': 1000, 'leaf_sets': 1000, 'detached_leaf_sets': 200, 'leak_checks': 2000, 'slot_sets': 300, 'falsy_object_cases': 100, 'on_init_builders': 60,
             'equal_comparing_object_cases': 50, 'batched_subobject_updates': 300, 'batched_owner_updates': 200, 'snapshots_taken': 150, 'shared_subobject_ops': 150, 'wiring_checks_inside_methods': 300}
 
 _st = {}
@@ -162,10 +162,110 @@ def shared_subobject_case(idx, rng, P, rep):
     rep.case(('shared', same_class, tuple(ops)), True)
 
 
+def branch_case(idx, rng, P, rep):
+    """Several dependencies of ONE method pass through the same sub-object and leave it by different attributes
+    ('a.b.x', 'a.d.y', 'a.e.x', next to 'a.x'): whichever branch is replaced, at whatever level, the method follows the objects
+    now attached and never a detached one."""
+    param = _st['param']
+    Leaf = _st['Leaf']
+
+    class Hub(param.Parameterized):
+        x = param.Number(default=0.0)
+        b = param.Parameter(default=None)
+        d = param.Parameter(default=None)
+        e = param.Parameter(default=None)
+
+    branches = rng.sample(['b', 'd', 'e'], rng.randint(2, 3))
+    deps = [f'a.{br}.{rng.choice("xy")}' for br in branches]
+    if rng.random() < 0.4:
+        deps.insert(rng.randrange(len(deps) + 1), 'a.x')
+    rng.shuffle(deps) if rng.random() < 0.5 else None
+
+    def refresh(self):
+        self.__dict__.setdefault('_log', []).append('refresh')
+    Own = type(f'Br{idx}', (param.Parameterized,), dict(a=param.Parameter(default=None), refresh=param.depends(*deps, watch=True)(refresh)))
+
+    def hub(like=None):
+        h = Hub(x=val() if like is None else like.x)
+        for br in ('b', 'd', 'e'):
+            src = getattr(like, br) if like is not None else None
+            setattr(h, br, Leaf(x=val() if src is None else src.x, y=val() if src is None else src.y))
+        return h
+    top = Own(a=hub())
+    detached = []
+    desc = dict(kind='branches', deps=deps)
+    ops = []
+
+    def reached():
+        out = []
+        for dep in deps:
+            o = top
+            for part in dep.split('.'):
+                o = getattr(o, part)
+            out.append(o)
+        return out
+    for step in range(rng.randint(5, 12)):
+        top.__dict__['_log'] = []
+        before = reached()
+        c = rng.random()
+        if c < 0.3:
+            br = rng.choice(['b', 'd', 'e'])
+            old = getattr(top.a, br)
+            equal = rng.random() < 0.4
+            new = Leaf(x=old.x if equal else val(), y=old.y if equal else val())
+            op = ('replace-branch', br, 'equal' if equal else 'differing')
+            if rng.random() < 0.3:
+                top.a.param.update(**{br: new})
+            else:
+                setattr(top.a, br, new)
+            detached.append(old)
+        elif c < 0.45:
+            equal = rng.random() < 0.4
+            old = top.a
+            new = hub(old) if equal else hub()
+            op = ('replace-hub', 'equal' if equal else 'differing')
+            top.a = new
+            detached.extend([old, old.b, old.d, old.e])
+        elif c < 0.75:
+            br = rng.choice(['b', 'd', 'e'])
+            leaf = rng.choice('xy')
+            op = ('leaf', br, leaf)
+            setattr(getattr(top.a, br), leaf, val())
+        elif c < 0.85:
+            op = ('hub-leaf', 'x')
+            top.a.x = val()
+        elif detached:
+            o = rng.choice(detached)
+            op = ('detached-leaf', type(o).__name__)
+            if isinstance(o, Hub) and rng.random() < 0.5:
+                o.b = Leaf(x=val(), y=val())
+            else:
+                o.x = val()
+                if hasattr(o, 'y'):
+                    o.y = val()
+            rep.count('detached_leaf_sets')
+        else:
+            continue
+        ops.append(op)
+        rep.count('branch_case_ops')
+        rep.count('ops_judged')
+        after = reached()
+        exp = 1 if any(a != b for a, b in zip(before, after)) else 0
+        got = top.__dict__['_log'].count('refresh')
+        if got != exp:
+            rep.violation('C07/branches/' + ('missing-call' if got < exp else 'extra-call'),
+                          f'{op}: method depending on {deps} ran {got}x, expected {exp} (values reached before {before}, after {after})',
+                          case=dict(desc, ops=ops))
+            break
+    rep.case(('branches', tuple(deps), tuple(o[0] for o in ops)), True)
+
+
 def run_case(idx, rng, P, rep):
     param = _st['param']
     if rng.random() < 0.05:
         return shared_subobject_case(idx, rng, P, rep)
+    if rng.random() < 0.06:
+        return branch_case(idx, rng, P, rep)
     Node, Leaf = _st['Node'], _st['Leaf']
     falsy = rng.random() < 0.3
     if falsy:
